@@ -68,6 +68,31 @@ func c12Program(run *common.Run, prog int, engine string, idx int) {
 		nz = newNoise(srv)
 		run.Count("programs_interleaved_with_traffic_for_another_table", 1)
 	}
+	branchMax := 3
+	if prog%4 == 2 {
+		// wide rows: every key starts with 20 columns in f1, and the mutation lists draw from a small pool of
+		// qualifiers that sort between and before the stored ones and hold 2-6 mutations - a branch creates columns
+		// out of order and addresses them (or stored ones) again within the same list
+		var pool []string
+		for _, key := range keys {
+			var muts []model.Mut
+			for c := 0; c < 20; c++ {
+				muts = append(muts, model.Mut{Kind: model.SetCell, Fam: "f1", Qual: fmt.Sprintf("c%02d", 2*c), TS: 1000, Val: "w"})
+			}
+			_, nr := m.Apply(key, muts, clock)
+			if st := drive.MutateRow(srv.Data, table, key, muts); !st.OK() {
+				fail("set-up write failed: " + st.String())
+				return
+			}
+			m.Commit(key, nr)
+		}
+		for c := 0; c < 6; c++ {
+			pool = append(pool, fmt.Sprintf("c%02d", 2*c+1), fmt.Sprintf("c%02d", 6*c))
+		}
+		o.QualPool = append(pool, "", "zz")
+		branchMax = 6
+		run.Count("programs_on_rows_with_20_and_more_columns", 1)
+	}
 	for s := 0; s < n; s++ {
 		if nz != nil && nzr.Chance(1, 2) {
 			nz.send(nzr, srv)
@@ -144,8 +169,8 @@ func c12Program(run *common.Run, prog int, engine string, idx int) {
 				pred = gen.Tree(r, c12Ctx, 3, 4)
 			}
 		}
-		tm := remap(gen.Mutations(r, o, 0, 3))
-		fm := remap(gen.Mutations(r, o, 0, 3))
+		tm := remap(gen.Mutations(r, o, 0, branchMax))
+		fm := remap(gen.Mutations(r, o, 0, branchMax))
 		// the row as served right now (input of the evaluator; gives the family order)
 		before := drive.ReadRow(srv.Data, table, key)
 		if !before.OK() {
